@@ -422,7 +422,7 @@ func cowExhaustive(tier string) []corr.Case {
 				// every flag × the file target, then every handle method
 				flags := c07Flags
 				if st != "cow-mem" && tier != "thorough" {
-					flags = []int{0, 1, 2, 0x42, 0x242, 0x101000, 0x441, 0xc1, 0x80}
+					flags = []int{0, 1, 2, 0x42, 0x242, 0x101000, 0x441, 0xc1, 0x80, 0x200, 0x400, 0x600, 0x240, 0x40}
 				}
 				for _, fl := range flags {
 					l := append([]string{"case " + st}, setup...)
